@@ -436,6 +436,32 @@ mod keyprobe {
     fn execute<C: Context>(&self, c: &mut C) -> i64 { bump(); let v = c.read(&self.0, MapEqualsChecker).unwrap().copied(); mix(0, stamp_exact(v)) }
   }
 
+  // resource family 4: files.  value = file * 3 + spelling; the three spellings of a path (`d/f`, `d//f`, `d/./f`) are EQUAL PathBufs
+  // (PathBuf compares and hashes component-wise), so they are one resource, and readers keyed by them are one task
+  thread_local! { static FDIR: tempfile::TempDir = tempfile::tempdir().unwrap(); }
+  fn fpath(v: u32) -> std::path::PathBuf {
+    let base = FDIR.with(|d| d.path().to_str().unwrap().to_string());
+    let f = v / 3;
+    std::path::PathBuf::from(match v % 3 { 0 => format!("{}/d/f{}", base, f), 1 => format!("{}/d//f{}", base, f), _ => format!("{}/d/./f{}", base, f) })
+  }
+  pub fn reset_files() {
+    let base = FDIR.with(|d| d.path().to_path_buf());
+    let _ = std::fs::remove_dir_all(base.join("d"));
+    std::fs::create_dir_all(base.join("d")).unwrap();
+  }
+  #[derive(Clone, PartialEq, Eq, Hash)] pub struct RdF(pub std::path::PathBuf);
+  impl Debug for RdF { fn fmt(&self, f: &mut Formatter<'_>) -> std::fmt::Result { write!(f, "RdF") } }
+  impl Task for RdF {
+    type Output = i64;
+    fn execute<C: Context>(&self, c: &mut C) -> i64 {
+      use std::io::Read as _;
+      bump();
+      let mut rd = c.read(&self.0, pie::resource::file::hash_checker::HashChecker).unwrap();
+      let v = match rd.as_file() { Some(f) => { let mut sbuf = String::new(); f.read_to_string(&mut sbuf).unwrap(); sbuf.trim().parse::<i64>().ok() } None => None };
+      mix(0, stamp_exact(v))
+    }
+  }
+
   fn req(pie: &mut Pie<()>, fam: u32, v: u32) -> i64 {
     let mut s = pie.new_session();
     match fam {
@@ -446,15 +472,16 @@ mod keyprobe {
   }
   fn reqr(pie: &mut Pie<()>, fam: u32, v: u32) -> i64 {
     let mut s = pie.new_session();
-    match fam { 0 => s.require(&Rd(RA::from(v))), 1 => s.require(&Rd(RB::from(v))), 2 => s.require(&Rd(U1)), _ => s.require(&Rd(U2)) }
+    match fam { 0 => s.require(&Rd(RA::from(v))), 1 => s.require(&Rd(RB::from(v))), 2 => s.require(&Rd(U1)), 3 => s.require(&Rd(U2)), _ => s.require(&RdF(fpath(v))) }
   }
   fn edit(pie: &mut Pie<()>, fam: u32, v: u32, val: Option<i64>) {
     macro_rules! e { ($k:expr, $t:ty) => { { let m = pie.resource_state_mut::<$t>().get_global_map_mut(); match val { Some(x) => { m.insert($k, x); } None => { m.remove(&$k); } } } } }
+    if fam == 4 { match val { Some(x) => std::fs::write(fpath(v), format!("{}", x)).unwrap(), None => { let _ = std::fs::remove_file(fpath(v)); } } return; }
     match fam { 0 => e!(RA::from(v), RA), 1 => e!(RB::from(v), RB), 2 => e!(U1, U1), _ => e!(U2, U2) }
   }
   fn bottom_up(pie: &mut Pie<()>, fam: u32, v: u32) {
     // the changed resource arrives as a boxed trait object, as a file watcher would hand it over
-    let boxed: Box<dyn KeyObj> = match fam { 0 => Box::new(RA::from(v)), 1 => Box::new(RB::from(v)), 2 => Box::new(U1), _ => Box::new(U2) };
+    let boxed: Box<dyn KeyObj> = match fam { 0 => Box::new(RA::from(v)), 1 => Box::new(RB::from(v)), 2 => Box::new(U1), 3 => Box::new(U2), _ => Box::new(fpath(v)) };
     let mut s = pie.new_session();
     let mut bu = s.create_bottom_up_build();
     bu.schedule_tasks_affected_by(boxed.as_ref());
@@ -466,6 +493,7 @@ mod keyprobe {
     let mut out = std::io::BufWriter::new(out.lock());
     for_each_case(path, |idx, toks| {
       writeln!(out, "C {}", idx).unwrap();
+      reset_files();
       let mut pie: Pie<()> = Pie::default();
       let mut t = Toks { t: &toks, i: 0 };
       while t.peek().is_some() {
